@@ -163,8 +163,15 @@ fn framework_root() -> PathBuf {
 }
 
 fn sbx_parent() -> PathBuf {
-    framework_root().join(".work").join("sbx")
+    let p = framework_root().join(".work").join("sbx");
+    // the unprivileged cases (euid 65534) must be able to reach the sandbox: when the framework lives below a
+    // directory without search permission for others (a copy under /root, say), use a scratch directory under the
+    // system temp dir instead (created at run time, removed with each sandbox)
+    let reachable = p.ancestors().filter(|a| a.is_dir()).all(|a| fs::metadata(a).map(|m| m.permissions().mode() & 0o001 != 0).unwrap_or(false));
+    if reachable { p } else { std::env::temp_dir().join(format!("zvharness-sbx-{}", unsafe { libc_getuid() })) }
 }
+
+extern "C" { #[link_name = "getuid"] fn libc_getuid() -> u32; }
 
 /// (kind, mode & 0o7777, content or link target)
 type Snap = BTreeMap<Vec<Vec<u8>>, (char, u32, Vec<u8>)>;
